@@ -96,11 +96,14 @@ class Registry:
             if name.startswith(pre):
                 u = self.lookup_exact(name[len(pre):])
                 if u is not None:
-                    if pv is None or getattr(u, "f", False):
+                    if pv is None:
                         w = R.Val(Fraction(0), dict(u.d))
                         w.f = True
+                        w.nan = True
                         return w, ("prefix", pre, name[len(pre):])
-                    return R.Val(u.v * pv, dict(u.d)), ("prefix", pre, name[len(pre):])
+                    w = R.Val(u.v * pv, dict(u.d))
+                    w.f = bool(getattr(u, "f", False))     # float-valued unit: value known to float precision only
+                    return w, ("prefix", pre, name[len(pre):])
         return None, None
 
     def lookup(self, name):
